@@ -649,7 +649,9 @@ func c16FixedWindow(p *Prog, r *Report) {
 	var sow *Event
 	for _, e := range x.Events {
 		if e.Kind == "assign" && e.Root == "GlobalVarsMain.SAAT" && len(e.Idx) == 1 && len(e.Loops) >= 2 {
-			if t := e.Val.single(); t != nil && len(t.M) == 1 && t.M[0].A.Kind != "cell" && !e.Val.IsZero() && e.HasGuard(func(c *Cond) bool { return strings.Contains(c.Key(), "GlobalVarsMain.AUTOMAN") && !strings.HasPrefix(c.Key(), "!") }) {
+			if t := e.Val.single(); t != nil && len(t.M) == 1 && t.M[0].A.Kind != "cell" && !e.Val.IsZero() && e.HasGuard(func(c *Cond) bool {
+				return strings.Contains(c.Key(), "GlobalVarsMain.AUTOMAN") && !strings.HasPrefix(c.Key(), "!")
+			}) {
 				sow = e
 			}
 		}
